@@ -556,6 +556,25 @@ def _short(t):
     return t if len(t) < 400 else t[:200] + ' ... ' + t[-180:]
 
 
+_NAMED = ('writer-raises', 'no-reparse', 'section-raises', 'label-unreadable', 'version', 'no-encoder')
+
+
+def _named_failure(case):
+    """the run's failure source is one the property names (the Lua writer raises, the transformed code does not
+    re-parse, a section or the PNG encoder raises ...): producing the cart has failed by definition, whether or not the
+    library reports it by an exception - so the encoder's normal return is not accepted as "done" for such a run and the
+    destination must be as it was.  (.p8.png has no sanity re-parse: there a writer whose output does not re-parse is
+    not a failure source.)"""
+    fk = case['fault']['kind']
+    return fk in _NAMED and not (fk == 'no-reparse' and case['fmt'] == 'png')
+
+
+def _mon_trace(case, trace):
+    if _named_failure(case):
+        return ','.join(e for e in trace.split(',') if e != 'E')
+    return trace
+
+
 def monitor_requests(case, obs):
     if obs.get('timeout'):
         return []
@@ -571,7 +590,7 @@ def monitor_requests(case, obs):
             for piece, o in zip(pieces, outs):
                 reqs.append('holds %s %d %s' % (fsx.hx(o), 1 if r['same_all'][o] else 0, ','.join(piece)))
         else:
-            reqs.append('holds %s %d %s' % (fsx.hx(obs['dest']), 1 if r['same'] else 0, r['trace']))
+            reqs.append('holds %s %d %s' % (fsx.hx(obs['dest']), 1 if r['same'] else 0, _mon_trace(case, r['trace'])))
     return reqs
 
 
@@ -583,7 +602,7 @@ def _bad_run(case, obs):
                 return r, False
         return (obs.get('runs') or [None])[0], True
     for r in obs.get('runs', []):
-        ev = r['trace'].split(',')
+        ev = _mon_trace(case, r['trace']).split(',')
         done = 'E' in ev
         pre = ev[:ev.index('E')] if done else ev
         d = fsx.hx(obs['dest'])
